@@ -17,6 +17,7 @@ import TboxModel.C13.ProofsScan
 import TboxModel.C13.ProofsSessions
 import TboxModel.C13.ProofsSplit
 import TboxModel.C13.ProofsScreen
+import TboxModel.C13.ProofsSock
 namespace Tbox.C13
 
 /-! ## C13_editor_refines
@@ -348,7 +349,9 @@ before the next loop pass (still with patches 01..06); and, with patches 01..07,
 force: `string::insert` throws), and a handler that leaves `!!` in the input so that it is stored:
 the next `!!` re-runs itself without end (stack overflow); and, with patches 01..09, a telnet client's
 `exit` followed by the destruction of the services in the same loop pass, or a handler's `endSession()`
-followed by a teardown: the queued disconnect task runs on the destroyed `Telnetd` / `TcpRpc`. -/
+followed by a teardown: the queued disconnect task runs on the destroyed `Telnetd` / `TcpRpc`; and, with patches 01..10, a
+command handler through which `Terminal::deleteSession` is called on the session it runs in (a command of the stdio shell that
+stops the service, a connection whose `endSession()` deletes): the rest of the command runs on the freed `SessionContext`. -/
 theorem C13_total_legacy_counterexample :
     (run Cfg.legacy {} [.openS 0, .recv [101, 120, 105, 116, 59, 101, 120, 105, 116, 13, 10], .pass]).2.contains (.bad .useAfterFree) = true ∧
     (run Cfg.legacy {} [.openS 0, .recv [33, 33, 13, 10]]).2.contains (.bad .emptyBack) = true ∧
@@ -362,7 +365,9 @@ theorem C13_total_legacy_counterexample :
       [.depth 1, .mkfunc [.feed [13, 10, 33, 33]], .mount 0 1 [112], .openS 0, .recv [112, 13, 10], .recv [33, 33, 13, 10]]).2.contains (.bad .recursion) = true ∧
     (run { Cfg.fixed with cancelEnd := false } {} [.xconn 4, .xrecv 4 [101, 120, 105, 116, 13, 10], .passdown]).2.contains (.bad .useAfterFree) = true ∧
     (run { Cfg.fixed with cancelEnd := false } {}
-      [.mkfunc [.endS], .mount 0 1 [112], .xconn 6, .xrecv 6 [112, 13, 10], .teardown]).2.contains (.bad .useAfterFree) = true := by
+      [.mkfunc [.endS], .mount 0 1 [112], .xconn 6, .xrecv 6 [112, 13, 10], .teardown]).2.contains (.bad .useAfterFree) = true ∧
+    (run { Cfg.fixed with delDefer := false } {}
+      [.mkfunc [.del], .mount 0 1 [112], .openS 1, .recv [112, 13, 10]]).2.contains (.bad .useAfterFree) = true := by
   decide +kernel
 
 -- non-vacuity of C13_total: the same inputs on the repaired model, with what is sent instead
@@ -443,18 +448,19 @@ slot is back to "never attached". A teardown inside the loop pass that runs the 
 notes the `endSession` of the sessions on recording connections, but none of the disconnect tasks that
 the exit tasks of this pass queue for telnet / raw-TCP clients is ever run — they are cancelled with
 their service (patch 10): no `closed`, nothing bad. (All clients lose their connection when the service
-is destroyed; that is not an event of the model.) -/
-theorem C13_teardown_drops_queued (w : World) :
+is destroyed; that is not an event of the model. `passdown` is defined only while no client has unread bytes queued: `hq`.) -/
+theorem C13_teardown_drops_queued (w : World) (hq : (w.slot 4).kq = [] ∧ (w.slot 5).kq = [] ∧ (w.slot 6).kq = []) :
     step Cfg.fixed w .teardown = some ({ tel := w.tel, rpc := w.rpc, depth := w.depth }, opLine "teardown") ∧
     (∃ evs, step Cfg.fixed w .passdown = some ({ tel := w.tel, rpc := w.rpc, depth := w.depth }, evs ++ opLine "passdown") ∧
       (∀ e ∈ evs, e.isBad = false) ∧ countClosed evs = 0) ∧
     ({ tel := w.tel, rpc := w.rpc, depth := w.depth } : World).slots = List.replicate nSlots {} ∧
     ({ tel := w.tel, rpc := w.rpc, depth := w.depth } : World).exits = [] := by
   refine ⟨by simp [step, Cfg.fixed], ?_, rfl, rfl⟩
-  refine ⟨(runExits Cfg.fixed w.exits (closeEnding [4, 5, 6] w.slots).1).2.filter (· ≠ .closed), ?_, ?_, ?_⟩
-  · simp [step, Cfg.fixed]
-  · exact noBad_filter _ (runExits_noBad _ _)
-  · simp [countClosed, List.filter_filter]
+  refine ⟨((runExits Cfg.fixed w.exits (closeEnding [4, 5, 6] w.slots).1).2.filter (· ≠ .closed)).filter (fun e => !isSysc e), ?_, ?_, ?_⟩
+  · simp [step, Cfg.fixed, hq]
+  · exact noBad_filter _ (noBad_filter _ (runExits_noBad _ _))
+  · simp only [countClosed, List.filter_filter, List.length_eq_zero_iff, List.filter_eq_nil_iff]
+    intro a _; simp; intro h1 _; exact h1
 
 /-! ## C13_sessions_independent -/
 
@@ -485,13 +491,12 @@ theorem C13_sessions_independent (cfg : Cfg) (w : World) (op : Op) (r : World ×
   | pass =>
     simp only [touches, Bool.or_eq_false_iff] at ht
     simp only [step] at hs; cases hs
-    have hg := dropGone_other w.gone w j ht.2
-    have hw : ({ dropGone w.gone w with gone := [] } : World).slot j = w.slot j := hg.1
-    rw [← hw]
+    have hg := sockPass_other cfg [4, 5, 6] w j ht.2
+    rw [← hg.1]
     apply doPass_other
-    rw [hw]
-    show ((dropGone w.gone w).exits.contains (j, (w.slot j).gen) || (w.slot j).ending) = false
-    rw [hg.2, ht.1.1, ht.1.2]; rfl
+    have hp := ht.1
+    simp only [passTouches] at hp ⊢
+    rw [hg.1, hg.2]; exact hp
   | teardown => simp [touches] at ht
   | passdown => simp [touches] at ht
   | opt n =>
@@ -515,15 +520,17 @@ theorem C13_sessions_independent (cfg : Cfg) (w : World) (op : Op) (r : World ×
   | xrecv k bs =>
     simp only [touches, beq_eq_false_iff_ne] at ht
     simp only [step] at hs; split at hs
-    · next hk =>
-      split at hs
-      · next h6 =>
-        subst h6
-        split at hs
-        · cases hs; rfl
-        · cases hs; exact deliver_other cfg w 6 j _ (Ne.symm ht)
-      · cases hs; exact finishSlot_other w k j _ _ _ (Ne.symm ht)
+    · cases hs; exact (recvSlot_apart cfg w k bs).slot j (Ne.symm ht)
     · simp at hs
+  | xsock k bs chunks term =>
+    simp only [touches, beq_eq_false_iff_ne] at ht
+    simp only [step] at hs; split at hs
+    · cases hs
+      exact ((sockEvent_apart cfg _ k chunks term).slot j (Ne.symm ht)).trans (slot_setSlot_ne w k j _ (Ne.symm ht))
+    · simp at hs
+  | xconnf k e => simp only [step] at hs; split at hs <;> first | (cases hs; rfl) | simp at hs
+  | ssplit sep bs => simp only [step] at hs; split at hs <;> first | (cases hs; rfl) | simp at hs
+  | hexstr bs n u dl => simp only [step] at hs; split at hs <;> first | (cases hs; rfl) | simp at hs
   | xdisc k =>
     simp only [touches, beq_eq_false_iff_ne] at ht
     simp only [step] at hs; split at hs
@@ -531,44 +538,36 @@ theorem C13_sessions_independent (cfg : Cfg) (w : World) (op : Op) (r : World ×
     · simp at hs
   | sstart =>
     simp only [touches, Bool.or_eq_false_iff, beq_eq_false_iff_ne] at ht
-    have hp : (w.exits.contains (j, (w.slot j).gen) || (w.slot j).ending) = false := by rw [ht.1.2, ht.2]; rfl
+    have hne : (7 : Nat) ≠ j := Ne.symm ht.1
     simp only [step] at hs; split at hs
     · cases hs
-      have h7 := slot_setSlot_ne w 7 j { w.slot 7 with fstate := 1, gen := (w.slot 7).gen + 1, sess := some { opts := 1 } } (Ne.symm ht.1.1)
-      rw [doPass_other cfg _ j (by rw [h7]; exact hp), h7]
+      have ha := setSlot_apart w 7 { w.slot 7 with fstate := 1, gen := (w.slot 7).gen + 1, sess := some { opts := 1 } }
+      rw [doPass_other cfg _ j (by rw [passTouches_apart ha hne]; exact ht.2), ha.slot j hne]
     · simp at hs
   | srecv bs =>
     simp only [touches, Bool.or_eq_false_iff, beq_eq_false_iff_ne] at ht
-    have hp : (w.exits.contains (j, (w.slot j).gen) || (w.slot j).ending) = false := by rw [ht.1.2, ht.2]; rfl
+    have hne : (7 : Nat) ≠ j := Ne.symm ht.1
     simp only [step] at hs; split at hs
     · cases hs
       simp only
       by_cases hb : bs = []
-      · simp only [hb, if_true]; exact doPass_other cfg w j hp
+      · simp only [hb, if_true]; exact doPass_other cfg w j ht.2
       · simp only [hb, if_false]
         by_cases h1 : (w.slot 7).fstate = 1
         · simp only [h1, if_true]
-          have hd := deliver_other cfg w 7 j bs (Ne.symm ht.1.1)
-          obtain ⟨n, hn⟩ := deliver_exits cfg w 7 bs
-          rw [doPass_other cfg _ j ?_, hd]
-          rw [hd, hn]
-          have hc : (w.exits ++ List.replicate n (7, (w.slot 7).gen)).contains (j, (w.slot j).gen) = false := by
-            rw [Bool.eq_false_iff]; intro hh
-            rcases List.mem_append.mp (List.contains_iff_mem.mp hh) with h2 | h2
-            · have := List.contains_iff_mem.mpr h2; rw [ht.1.2] at this; cases this
-            · have := (List.mem_replicate.mp h2).2; simp at this; exact ht.1.1 this.1
-          rw [hc, ht.2]; rfl
+          have ha := deliver_apart cfg w 7 bs
+          rw [doPass_other cfg _ j (by rw [passTouches_apart ha hne]; exact ht.2), ha.slot j hne]
         · simp only [h1, if_false]
-          have h7 := slot_setSlot_ne w 7 j { w.slot 7 with fstate := 1, gen := (w.slot 7).gen + 1, sess := some { opts := 1 } } (Ne.symm ht.1.1)
-          rw [doPass_other cfg _ j (by rw [h7]; exact hp), h7]
+          have ha := setSlot_apart w 7 { w.slot 7 with fstate := 1, gen := (w.slot 7).gen + 1, sess := some { opts := 1 } }
+          rw [doPass_other cfg _ j (by rw [passTouches_apart ha hne]; exact ht.2), ha.slot j hne]
     · simp at hs
   | sstop =>
     simp only [touches, Bool.or_eq_false_iff, beq_eq_false_iff_ne] at ht
-    have hp : (w.exits.contains (j, (w.slot j).gen) || (w.slot j).ending) = false := by rw [ht.1.2, ht.2]; rfl
+    have hne : (7 : Nat) ≠ j := Ne.symm ht.1
     simp only [step] at hs; split at hs
     · cases hs
-      have h7 := slot_setSlot_ne w 7 j { w.slot 7 with fstate := 3, sess := none } (Ne.symm ht.1.1)
-      rw [doPass_other cfg _ j (by rw [h7]; exact hp), h7]
+      have ha := setSlot_apart w 7 { w.slot 7 with fstate := 3, sess := none }
+      rw [doPass_other cfg _ j (by rw [passTouches_apart ha hne]; exact ht.2), ha.slot j hne]
     · simp at hs
   | mkdir => simp only [step] at hs; split at hs <;> first | (cases hs; rfl) | simp at hs
   | mkfunc sc => simp only [step] at hs; split at hs <;> first | (cases hs; rfl) | simp at hs
@@ -669,5 +668,149 @@ example : joinQuoted [[97, 32, 98], [], [0, 39, 9]] = [34, 97, 32, 98, 34, 32, 3
 example : splitCmdline [97, 32, 34, 98, 32, 99, 34, 32, 45, 107, 61, 39, 118, 32, 119, 39, 122] =
     some [[97], [98, 32, 99], [45, 107, 61, 39, 118, 32, 119, 39, 122]] ∧
     splitCmdline [97, 32, 34, 98] = none := by decide
+
+/-! ## C13_delete_in_handler (patch 11) -/
+
+/-- **C13_delete_in_handler.** `Terminal::deleteSession` called from a command handler on the very session the handler runs
+in — for EVERY script, world, slot and delivery: (1) the deletion changes nothing of the processing that is under way: the
+rest of the handler's script, of the command line and of the segment run on the session exactly as without it, the call is
+only noted; (2) when the delivery has been processed the slot's session is gone, (3) no other slot is touched, and nothing
+that stands for an invalid access is produced on the way (the delivery's own events are passed on unchanged apart from the
+note). The code as found freed the pooled context on the spot and went on using it: last conjunct of
+`C13_total_legacy_counterexample`. -/
+theorem C13_delete_in_handler (feed : Feed) (s : St) (r : List Act)
+    (w : World) (k : Nat) (x : Slot) (so : Option St) (evs : List Ev) (hk : k < w.slots.length) (hd : Ev.delS ∈ evs) :
+    runScript feed s (.del :: r) = ((runScript feed s r).1, .delS :: (runScript feed s r).2) ∧
+    ((finishSlot Cfg.fixed w k x so evs).1.slot k).sess = none ∧
+    (∀ j, k ≠ j → (finishSlot Cfg.fixed w k x so evs).1.slot j = w.slot j) ∧
+    ((∀ e ∈ evs, e.isBad = false) → ∀ e ∈ (finishSlot Cfg.fixed w k x so evs).2, e.isBad = false) := by
+  have hany : evs.any isDelS = true := List.any_eq_true.mpr ⟨_, hd, by simp [isDelS]⟩
+  refine ⟨by simp [runScript], ?_, fun j h => finishSlot_other Cfg.fixed w k j x so evs h, ?_⟩
+  · have hget : ∀ y : Slot, (w.setSlot k y).slot k = y := by
+      intro y; simp [World.slot, World.setSlot, List.getD_eq_getElem?_getD, hk]
+    unfold finishSlot
+    simp only [hany, if_true]
+    cases kindOf k <;> simp only [] <;> first | (rw [hget]) | (show ((w.setSlot k _).slot k).sess = none; rw [hget])
+  · intro hb
+    have hdrop : noBad (dropTxAfterDel evs) := by
+      clear hd hany
+      induction evs with
+      | nil => exact noBad_nil
+      | cons e r ih =>
+        have hr : noBad r := fun y hy => hb y (List.mem_cons_of_mem _ hy)
+        have he : e.isBad = false := hb e List.mem_cons_self
+        cases e <;> first
+          | exact noBad_cons he (ih hr)
+          | exact noBad_cons rfl (noBad_filter _ hr)
+    unfold finishSlot
+    simp only [delOutcome_fixed, List.append_nil]
+    cases kindOf k <;> simp only []
+    · exact noBad_cons rfl (noBad_filter _ hb)
+    · exact noBad_cons rfl (noBad_filter _ (noBad_filter _ hb))
+    · exact noBad_cons rfl (noBad_filter _ (noBad_filter _ hb))
+    · exact noBad_cons rfl (noBad_filter _ (noBad_filter _ hdrop))
+
+-- non-vacuity: `p;pwd` where p's handler deletes the session and sends a text: everything is still answered (text, `<1>`,
+-- the path, the prompt), then the session is gone and further input is refused
+example : untag (run Cfg.fixed {} [.mkfunc [.del, .send [104]], .mount 0 1 [112], .openS 0, .recv [112, 59, 112, 119, 100, 13, 10], .recv [13, 10]]).2 =
+    [.slot 8, .line "node=1", .slot 8, .line "ret=1", .slot 0, .tx .out (Msg.welcome ++ Msg.typeHelp), .tx .prompt Msg.prompt, .slot 8, .line "ret=1",
+     .slot 0, .entered, .exec [112, 59, 112, 119, 100], .probe 1 [[112]], .tx .out [104], .tx .out [60, 49, 62, 13, 10],
+     .tx .out [47, 13, 10], .stored [112, 59, 112, 119, 100], .tx .prompt Msg.prompt, .slot 8, .line "ret=1", .slot 8, .line "ret=0"] := by
+  decide +kernel
+
+/-! ## C13_sock_* — the real socket read path (`BufferedFd::onReadCallback` under any kernel answers) -/
+
+/-- **C13_sock_stream_conserved.** Whatever the kernel answers to the `readv` calls — any sizes of the successful calls, EAGAIN /
+end of file / ECONNRESET / EINTR / EIO at any point, over any number of read events — the deliveries the front end receives,
+glued together, followed by what is still queued, are exactly the bytes the client wrote: nothing lost, duplicated or
+reordered by the read path (with `C13_telnet_resumable`: the terminal is handed the same thing whatever the segmentation). -/
+theorem C13_sock_stream_conserved (gone : Bool) (kq : Str) (evs : List (List Nat × Nat)) :
+    (sockReads gone kq evs).1.flatten ++ (sockReads gone kq evs).2 = kq :=
+  sockReads_conserve gone evs kq
+
+/-- **C13_sock_close_rule.** A read event ends the connection only when its FIRST `readv` is answered end of file or an error
+other than EAGAIN — then nothing is delivered; EAGAIN never closes; an answer that follows data in the same event is not looked
+at (it comes back with the next event). EINTR as the first answer does end the session (the code treats every errno but EAGAIN
+as fatal). -/
+theorem C13_sock_close_rule (kq : Str) (gone : Bool) (cs : List Nat) (term : Nat) :
+    ((sockRead kq gone cs term).closed = true → (sockRead kq gone cs term).data = []) ∧
+    (sockRead kq gone [] 1).closed = false ∧ (sockRead kq gone [] 1).rest = kq ∧
+    (sockRead kq gone [] 4).closed = true ∧
+    (kq ≠ [] → cs ≠ [] → (∀ c ∈ cs, 1 ≤ c) → (sockRead kq gone cs term).closed = false) := by
+  refine ⟨sockRead_closed kq gone cs term, by simp [sockRead, rdChunks], by simp [sockRead, rdChunks], by simp [sockRead, rdChunks], ?_⟩
+  intro hk hc h1
+  cases cs with
+  | nil => exact absurd rfl hc
+  | cons c cs => exact sockRead_open kq gone c cs term hk (h1 c List.mem_cons_self)
+
+example : sockReads false [1, 2, 3, 4, 5] [([2], 1), ([], 1), ([1, 5], 2), ([], 0)] = ([[1, 2], [], [3, 4, 5], []], []) := by decide
+
+/-! ## the client's window has a right margin -/
+
+/-- **C13_wrap_agrees_below_width.** The terminal with a right margin (`ScrW`, the machine the harness's independent emulator
+is compared with on every run) and the unbounded one of `C13_screen_matches_editor` do the same, byte for byte, for EVERY
+byte string during which the unbounded terminal's cursor stays left of the margin. -/
+theorem C13_wrap_agrees_below_width (bs : Str) (r : Scr) (q : ScrW) (h : Sim r q) (hW : (r.feed bs).maxc < q.w) :
+    (q.feed bs).row = (r.feed bs).row ∧ (q.feed bs).col = (r.feed bs).col ∧ (q.feed bs).esc = (r.feed bs).esc := by
+  have := (sim_feed bs r q h hW).1
+  exact ⟨this.row, this.col, this.esc⟩
+
+-- OPEN (false as it stands, see the counterexample): for EVERY window width `W` the client's terminal shows `pre ++ line`
+-- (folded at the margin) with its cursor where the editor's cursor is.
+/-- **C13_screen_in_window_partial.** What a client with a window of `W` columns sees — the terminal WITH a right margin — for an
+echoing session and every sequence of editing keys, under the decidable hypothesis that prompt + the longest the line gets
+fits the window (`pre.length + widest < W`): the current row shows `pre ++` the editor's line, the cursor stands where the
+editor's cursor is, no escape sequence is left open. -/
+theorem C13_screen_in_window_partial (cfg : Cfg) (ns : Nodes) (d : Nat) (pre : Str) (s : St) (r : Scr) (q : ScrW) (ks : List Key)
+    (hS : Shows pre s r) (hq : Sim r q) (he : s.echo = true) (hne : Key.enter ∉ ks) (hc : ∀ c, Key.char c ∈ ks → plain c = true)
+    (hW0 : r.maxc < q.w) (hW : pre.length + widest cfg ns (feedAt cfg ns d) s ks < q.w) :
+    (∃ n, (q.feed (txBytes (runKeys cfg ns (feedAt cfg ns d) s ks).2)).row =
+        pre ++ (runKeys cfg ns (feedAt cfg ns d) s ks).1.line ++ List.replicate n 32) ∧
+    (q.feed (txBytes (runKeys cfg ns (feedAt cfg ns d) s ks).2)).col = pre.length + (runKeys cfg ns (feedAt cfg ns d) s ks).1.cursor ∧
+    (q.feed (txBytes (runKeys cfg ns (feedAt cfg ns d) s ks).2)).esc = 0 := by
+  have h := C13_screen_matches_editor cfg ns d pre s r ks q.w hS he hne hc hW0 hW
+  have a := C13_wrap_agrees_below_width (txBytes (runKeys cfg ns (feedAt cfg ns d) s ks).2) r q hq h.2.2.2.1
+  rw [a.1, a.2.1, a.2.2]
+  exact ⟨h.1, h.2.1, h.2.2.1⟩
+
+/-- Beyond the margin it is false, of the code as found and as repaired: window of 8 columns, prompt `# `, eight letters typed
+(the line wraps after `# abcdef`), Home, then `X`. The editor holds `Xabcdefgh` with the cursor behind the `X`; the shell sent
+eight `ESC [ D` for Home — the terminal's cursor cannot leave its row and stops at column 0 of the SECOND row — and redraws
+the line from there: the client sees the rows `# abcdef`, `Xabcdefg`, `h`, its cursor at the start of the third one. -/
+theorem C13_screen_in_window_counterexample :
+    let s : St := { opts := 1 }
+    let ks : List Key := [.char 97, .char 98, .char 99, .char 100, .char 101, .char 102, .char 103, .char 104, .home, .char 88]
+    let o := runKeys Cfg.fixed [] none s ks
+    let q := (({ w := 8 } : ScrW).feed Msg.prompt).feed (txBytes o.2)
+    o.1.line = [88, 97, 98, 99, 100, 101, 102, 103, 104] ∧ o.1.cursor = 1 ∧
+    q.up = 2 ∧ q.row = [104] ∧ q.col = 0 ∧ widest Cfg.fixed [] none s ks = 9 := by
+  decide +kernel
+
+example : Sim (({} : Scr).feed (Msg.crlf ++ Msg.prompt)) (({ w := 80 } : ScrW).feed (Msg.crlf ++ Msg.prompt)) :=
+  ⟨by decide, by decide, by decide⟩
+
+/-! ## util::string helpers used by the anchored files: `Split` (execute: `;`, findNode: `/`), `RawDataToHexStr` (telnetd trace) -/
+
+/-- **C13_strsplit_single.** `util::string::Split` with a one-character separator — the only way the terminal calls it — is the
+`splitOn` the shell model is built on, for every input. -/
+theorem C13_strsplit_single (c : UInt8) (s : Str) : splitBy [c] s = splitOn c s := by
+  unfold splitBy
+  rw [splitByGo_single c (s.length + 1) s [] (by omega)]
+  cases h : splitOn c s with
+  | nil => exact absurd h (splitOn_ne_nil c s)
+  | cons x xs => simp
+
+/-- **C13_hexstr_width.** `RawDataToHexStr` takes its length as `uint16_t`; `Telnetd::onRecvSub` passes a `size_t`. For every
+length below 2^16 the first `n` bytes are rendered, two digits each (2n characters without delimiter); a length of 2^16 or more
+is taken modulo 2^16 — fewer bytes are READ than were received, never more: the call stays inside the received bytes. -/
+theorem C13_hexstr_width (data : Str) (n : Nat) (u : Bool) (delim : Str) :
+    (n < 65536 → rawHex data n u delim = delim.intercalate ((data.take n).map (hex2 u))) ∧
+    rawHex data (n + 65536) u delim = rawHex data n u delim ∧
+    (rawHex data n u []).length = 2 * min (n % 65536) data.length ∧
+    n % 65536 ≤ n := by
+  refine ⟨fun h => by unfold rawHex; rw [Nat.mod_eq_of_lt h], by unfold rawHex; rw [Nat.add_mod_right], rawHex_length data n u, Nat.mod_le _ _⟩
+
+example : rawHex [0, 255, 16] 3 false [58] = [48, 48, 58, 102, 102, 58, 49, 48] ∧ rawHex [0, 255, 16] 65538 true [] = [48, 48, 70, 70] ∧
+    splitBy [97, 98] [120, 97, 98, 121, 97, 98, 97, 98] = [[120], [121], [], []] := by decide
 
 end Tbox.C13
